@@ -271,6 +271,9 @@ func runC18(r *Run) {
 		{Name: "same prefix, disjoint stores", Filters: []c18Filter{{Name: "a", Prefix: "p", ClientID: "client-a", Redis: "r1/0"}, {Name: "b", Prefix: "p", ClientID: "client-b", Redis: "r2/0"}}},
 	}
 	ownKeySets(r, "[C18]")
+	if r.unknownViolations() == 0 {
+		consistencyHammer(r, "[C18]") // two OIDC filters serving logins at the same time: no answer of one carries anything of the other
+	}
 	c18Loader(r)
 	c18Proxy(r)
 	reps := scale(r, 1, 10)
